@@ -15,9 +15,9 @@ META = {
             "identities on the transcribed coefficient formulas); vel/acc/jer outputs and the c1/c2/c3 accessors are the "
             "successive derivatives (Coquelicot is_derive) of the position polynomial; a_poly_eval_ = Horner value = explicit "
             "sum for every length, evar = eval on the reversed list, swap = reversal (involution). Tie: bit-exact binary64 "
-            "execution of the same Gallina terms vs the C on generated inputs. PARTIAL: for the SEPTIC generator the floating-point "
-            "rounding error at the end time is measured against exact rationals, not proved (cubic and quintic: proved in the "
-            "rounding model, see END-TO-END below). ROUNDING (C15_horner_rounding_bound*, "
+            "execution of the same Gallina terms vs the C on generated inputs. The floating-point rounding error at the end time of "
+            "all three generators (cubic, quintic, septic) is proved in the rounding model (END-TO-END below) and, on the C run, "
+            "measured against exact rationals. ROUNDING (C15_horner_rounding_bound*, "
             "C15_evar_/poly_wrappers_rounding_bound): for every coefficient count n+1 and all real c, x, the same Horner term "
             "with each operation followed by a rounding rnd differs from its exact value by at most ((1+eps)^(2n)-1) sum|c_i||x|^i "
             "+ 2 eta (1+eps)^(2n) sum_{j<n}|x|^j (<= gamma_2n form when 2n eps<1), proved in the standard rounding model "
@@ -32,7 +32,20 @@ META = {
             "(sharper: 20 eps (|p0|+5|p1-p0|+|ts|(4|v0|+2|v1|)) and 20 eps (8|v0|+5|v1|+12|p1-p0|/|ts|)), pos(0)=rnd p0 and vel(0)=rnd v0 "
             "(exact for format numbers), and for the quintic (extra hypothesis rnd 2 = 2, true for binary64) position/velocity/"
             "acceleration at ts are within 1056 eps S5, 3960 eps S5/|ts|, 11880 eps S5/|ts|^2 (+ explicit eta terms), "
-            "S5=S+|ts|^2(|a0|+|a1|); binary64 instances by Flocq; overflow excluded; the septic generator is not covered. "
+            "S5=S+|ts|^2(|a0|+|a1|); binary64 instances by Flocq; overflow excluded. SEPTIC (C15_traj7_end_rounding_bound[_binary64|"
+            "_weighted], C15_traj7_coeff_rounding, C15_traj7_start_exact, C15_traj7_start_rounding_bound; coq/C15/TrajRound7.v): same "
+            "model and reading, extra hypotheses rnd 2 = 2 and rnd 6 = 6 (the divisors of the constants (a_real)(1.0/2), (a_real)(1.0/6); "
+            "true for binary64; the quotient 1/6 itself is rounded and its error is counted): with the eight coefficients computed by "
+            "the trajpoly7_gen term (reciprocal of ts, its powers, all integer constants rounded) and position/velocity/acceleration/"
+            "jerk evaluated at ts by the rounded Horner terms (rounded factors k, k(k-1), k(k-1)(k-2)), |pos(ts)-p1| <= 9030 eps S7, "
+            "|vel(ts)-v1| <= 48160 eps S7/|ts|, |acc(ts)-a1| <= 216720 eps S7/|ts|^2, |jer(ts)-j1| <= 794640 eps S7/|ts|^3, each "
+            "+ C eta (1+1/|ts|)^7 (1+|ts|)^m W7 with (C,m) = (1e6,7), (4e6,6), (3e7,5), (3e8,4), S7=S5+|ts|^3(|j0|+|j1|), "
+            "W7=1+|p1-p0|+|v0|+|v1|+|a0|+|a1|+|j0|+|j1| (sharper: 43 eps times the all-signs-positive value of the exact formulas, "
+            "e.g. |p0|+209|p1-p0|+|ts|(112|v0|+98|v1|)+|ts|^2(25|a0|+18|a1|)+|ts|^3(8/3|j0|+4/3|j1|) for the position; 43 = 42 roundings "
+            "on the longest path + 1); per coefficient c2..c7 against the exact formula (20..29 eps times its magnitude); pos(0)=rnd p0, "
+            "vel(0)=rnd v0 (exact for format numbers), |acc(0)-a0| <= 7 eps|a0|, |jer(0)-j0| <= 9 eps|j0| (+ eta terms; exactness of "
+            "acc(0) in binary64 is not proved). Non-vacuity examples: identity rounding (end values exact), an inexact model keeping 2 "
+            "and 6, binary64 with ts=2 and non-zero v, a, j data (four end values within 2^-30). "
             "Glue around the modelled core (differential tests, not theorems): the 23 C++ member functions of a_trajpoly3/5/7 (list read "
             "from the headers on every run; defaulted arguments omitted and spelled out) against the C functions they forward to, all "
             "state and output arrays compared bit for bit; and one driver generic in a_real built as float, double and long double with "
@@ -50,7 +63,10 @@ META = {
             "against the C on the generated cases only; the translators (tools/c2coq.py, tools/c2arr.py) are trusted to read the C "
             "right - their output is proved equal to the model, not to the C; gcc -O2 -ffp-contract=off on x86-64 being IEEE binary64 op by op. The glue runs "
             "(tools/vglue.py, harness/glue/) are differential tests on generated inputs, not theorems; the float and long double builds "
-            "are not modelled in Rocq (the septic there is only compared with the exact solution within a float-sized tolerance).",
+            "are not modelled in Rocq (the septic there is only compared with the exact solution within a float-sized tolerance). "
+            "The septic end-to-end bound assumes rnd 2 = 2 and rnd 6 = 6 in the abstract model (discharged for binary64 by Flocq); like "
+            "the cubic and quintic ones it speaks about the rounded-real term (overflow excluded), and the C run is connected to that "
+            "term only through the bit-exact primitive-float comparison on the generated cases.",
     "technique": "Rocq proof over R (field, auto_derive, list induction) + coefficient formulas regenerated from src/trajpoly*.c by a translator and re-tied by conversion on every run, the Horner evaluators and the coefficient swap regenerated with their loops as Fixpoints and proved equal to the model for every coefficient count, and unrolled for 0..6 coefficients and proved equal to the wrapper model + bit-exact primitive-float model vs C correspondence",
 }
 
